@@ -1304,6 +1304,13 @@ func (c *Ctx) utcInstants(rule string) {
 					bad = "time.Now() without .UTC()"
 				case "(time.Time).Local", "(time.Time).In":
 					bad = Callee(ic)
+				default:
+					// a clock reached through a package-level variable that is not
+					// time.Now itself (`var now = time.Now().UTC` is a method value bound
+					// to the instant the package was initialised: a clock that stands still)
+					if strings.HasPrefix(Callee(ic), "var:") {
+						bad = "read from the package-level variable " + strings.TrimPrefix(Callee(ic), "var:") + ", which is not initialised with time.Now itself (a bound method value such as time.Now().UTC is evaluated once, at start-up)"
+					}
 				}
 			}
 			walk(v, 0)
@@ -1585,8 +1592,41 @@ func (c *Ctx) refusalConfigMapped(rule string) {
 			ok := true
 			why := ""
 			seenCfg, seenRedir, seenZero := false, false, false
-			for i, e := range phi.Edges {
-				fs := FactsAtEdge(phi.Block().Preds[i], phi.Block())
+			// the leaves of the (possibly nested) choice, each with the facts of the
+			// edges it arrives over; a fact "choice == constant" about an inner choice
+			// between constants stands for the facts of the one edge that delivers it
+			var leaf func(e ssa.Value, fs []Fact, depth int)
+			leaf = func(e ssa.Value, fs []Fact, depth int) {
+				if p, isP := e.(*ssa.Phi); isP && depth < 4 {
+					for i, pe := range p.Edges {
+						leaf(pe, append(append([]Fact{}, fs...), FactsAtEdge(p.Block().Preds[i], p.Block())...), depth+1)
+					}
+					return
+				}
+				for _, f := range append([]Fact{}, fs...) {
+					rel := f.Rel()
+					ip, isP := rel.X.(*ssa.Phi)
+					k, isC := ConstInt(rel.Y)
+					if !isP || !isC || (rel.Op != token.EQL && rel.Op != token.NEQ) {
+						continue
+					}
+					at := -1
+					cnt := 0
+					for i, pe := range ip.Edges {
+						ek, ec := ConstInt(pe)
+						if !ec {
+							cnt = 99
+							break
+						}
+						if (ek == k) == (rel.Op == token.EQL) {
+							at = i
+							cnt++
+						}
+					}
+					if cnt == 1 {
+						fs = append(fs, FactsAtEdge(ip.Block().Preds[at], ip.Block())...)
+					}
+				}
 				cfgSet := HasFact(fs, func(f Fact) bool {
 					rel := f.Rel()
 					k, isC := ConstInt(rel.Y)
@@ -1605,6 +1645,10 @@ func (c *Ctx) refusalConfigMapped(rule string) {
 					rel := f.Rel()
 					return rel.B != nil && !rel.Pol && fieldLoadName(rel.B) == "RoutesRedirectOnUnauthed"
 				})
+				// an arrival whose facts contradict each other is no arrival
+				if cfgSet && cfgUnset || redirOn && redirOff {
+					return
+				}
 				switch {
 				case fieldLoadName(e) == "ResponseOnUnauthed":
 					seenCfg = true
@@ -1629,6 +1673,7 @@ func (c *Ctx) refusalConfigMapped(rule string) {
 					}
 				}
 			}
+			leaf(phi, nil, 0)
 			if ok && !(seenCfg && seenRedir && seenZero) {
 				ok, why = false, "not all three configuration cases are distinguished"
 			}
